@@ -131,10 +131,15 @@ def run_scenario(item):
             out['trace'] = build_trace(w.hooks(), item['id'], obs)
             return out
         if sig_kind == 'sigterm':
+            # "exits immediately": well before anything else (shutdown_timeout, a client leaving) could end the process
             try:
-                w.proc.wait(timeout=3.0)
+                w.proc.wait(timeout=1.2)
             except Exception:
                 note('sigterm_no_exit')
+                try:
+                    w.proc.wait(timeout=4.0)
+                except Exception:
+                    pass
             out['trace'] = build_trace(w.hooks(), item['id'], obs)
             return out
         lingering = [m for m, s in state.items() if s == 'intx']
@@ -286,7 +291,25 @@ def check_c17(prop, tier, seed):
     keys = sorted(byf)
     rng.shuffle(keys)
     n = {'quick': 110, 'thorough': 1500}[tier]
-    chosen = []
+
+    def term_during_drain(s2):
+        # SIGTERM while a graceful shutdown is waiting for a client that is inside a transaction
+        state, got_int = {}, False
+        for x in s2:
+            if x['op'] == 'connect':
+                state[x['c']] = 'idle'
+            elif x['op'] == 'begin':
+                state[x['c']] = 'intx'
+            elif x['op'] in ('end', 'leave'):
+                state[x['c']] = 'idle' if x['op'] == 'end' else 'gone'
+            elif x['op'] == 'sigint':
+                got_int = True
+            elif x['op'] == 'sigterm':
+                return got_int and any(v2 == 'intx' and c2 != 'ADM' for c2, v2 in state.items())
+        return False
+    quota = [s2 for s2 in withsig if term_during_drain(s2)]
+    rng.shuffle(quota)
+    chosen = quota[:max(8, n // 12)]
     i = 0
     while len(chosen) < n:
         progressed = False
